@@ -32,7 +32,7 @@ import (
 
 func init() {
 	register("c03", checkC03)
-	children["c03"] = func(args []string) { cliChildLoop(c03Child) }
+	children["c03"] = func(args []string) { cliChildLoop(false, c03Child) }
 }
 
 type c03Case struct {
